@@ -103,6 +103,20 @@ def _qb_worker(args):
                 nd = b.get_eventcount(ws, we)
                 out.append({"op": "qb", "backend": kind, "w": w, "evs": stored, "res": [pe(e) for e in res], "direct": [pe(e) for e in direct],
                             "n": cnt if isinstance(cnt, int) else -1, "ndirect": nd})
+            # the same window again after (a) a query that read the bucket and then FAILED, (b) a change of the bucket: what a
+            # query reads is what the store holds now, whatever earlier queries of the process did
+            try:
+                q("qname", "x = query_bucket('%s'); y = query_bucket_eventcount('%s'); RETURN = no_such_function(x);" % (bid, bid), ws, we, ds)
+            except Exception:
+                pass
+            b.insert(Event(timestamp=ws + (we - ws) / 2, duration=0, data={"i": 90}))
+            if evl and rnd.random() < 0.5:
+                b.delete(b.get(1)[0].id)
+            stored = [pe(e) for e in b.get(-1)]
+            res = q("qname", "RETURN = query_bucket('%s');" % bid, ws, we, ds)
+            cnt = q("qname", "n = query_bucket_eventcount('%s'); RETURN = n;" % bid, ws, we, ds)
+            out.append({"op": "qb", "backend": kind, "w": w, "evs": stored, "res": [pe(e) for e in res], "direct": [pe(e) for e in b.get(-1, ws, we)],
+                        "n": cnt if isinstance(cnt, int) else -1, "ndirect": b.get_eventcount(ws, we)})
             ds.delete_bucket(bid)
     finally:
         store.close_datastore(kind, ds)
